@@ -141,6 +141,7 @@ def run(ctx):
                 for cid in meta:
                     shutil.rmtree(os.path.join(root, cid), ignore_errors=True)
         live_stage(ctx, root, tdirs)
+        sanitizer_stage(ctx)
     finally:
         shutil.rmtree(root, ignore_errors=True)
     ctx.exhaustive = True
@@ -229,8 +230,94 @@ def live_stage(ctx, root, tdirs):
         ctx.fail_harness("the live-mutation stage judged nothing")
 
 
+SAN_KINDS = ["drop_index", "drop_view", "drop_table", "add_table", "add_view", "add_index", "add_column", "rename_table", "rename_column",
+             "drop_column"]
+
+
+def sanitizer_stage(ctx):
+    """verify() on deviating libraries inside the ASan+UBSan+libstdc++-assertions build: the comparison code walks listings that are
+    shorter, longer or differently named than it expects, which is where an iterator gets dereferenced at the end.  The cases are
+    self-contained (the library is created, filled and then changed by a second connection inside the executor: `deviate`); the
+    deviation appears before a reload or while the handles are still open.  Verdict: verify() throws database_inconsistency, and
+    nothing is reported by the sanitizers."""
+    from .. import gen_snap as GS
+    per = 20 if ctx.tier == "quick" else 200
+    cases, meta = [], {}
+    n = 0
+    for schema in ALL_SCHEMAS:
+        v2 = is_v2(schema)
+        for k in range(per):
+            kind = SAN_KINDS[k % len(SAN_KINDS)]
+            d = "@W/san%d" % n
+            rel = "Database2/m.db" if v2 else ("m.db" if (k // len(SAN_KINDS)) % 2 == 0 else "p.db")
+            held = k % 3 == 0
+            ops = [{"op": "create", "schema": schema, "dir": d},
+                   {"op": "create_track", "as": "t0", "snap": GS.gen_snapshot(ctx.rng, schema, rich=True, hostile_sentinels=False)},
+                   {"op": "create_root_crate", "name": GS.hx("A"), "as": "cA"}, {"op": "add_track", "c": "cA", "t": "t0"}, {"op": "verify"}]
+            if not held:
+                ops.append({"op": "release_all"})
+            ops.append({"op": "deviate", "file": d + "/" + rel, "kind": kind, "pick": ctx.rng.randrange(0, 1000)})
+            if not held:
+                ops.append({"op": "load", "dir": d})
+            ops.append({"op": "verify"})
+            cid = "san%d" % n
+            meta[cid] = (schema, rel, kind, held)
+            cases.append({"id": cid, "schema": schema, "ops": ops, "no_disk": True, "no_tz": True})
+            n += 1
+
+    def on_result(r):
+        judge_san(ctx, r, *meta[r.case["id"]])
+
+    runner.run_cases(cases, cfg="san", on_result=on_result, stall_timeout=120)
+    if not ctx.extra.get("deviations_verified_under_the_sanitizers"):
+        ctx.fail_harness("the sanitizer stage judged nothing")
+
+
+def judge_san(ctx, r, schema, rel, kind, held):
+    fam = "v2" if is_v2(schema) else "v1"
+    ops = r.case["ops"]
+    wit = {"schema": schema, "file": rel, "san": True, "kind": kind, "held": held, "ops": ops}
+    if r.crash:
+        c = r.crash
+        i = c["op_index"]
+        name = ops[i]["op"] if 0 <= i < len(ops) else "?"
+        if name in ("verify", "load"):
+            ctx.count()
+            ctx.violation(f"verify-crashes san:{kind} {c['kind']}", f"{schema}: {name}() on a library whose {rel} deviates ({kind}) died under the sanitizers: "
+                          f"{c['kind']} in {c['site']}", dict(wit, stderr=c.get("stderr", "")[:1200]))
+        else:
+            ctx.fail_harness("sanitizer stage: death in %s: %s" % (name, c["kind"]))
+        return
+    ev = r.events
+    di = next(i for i, o in enumerate(ops) if o["op"] == "deviate")
+    if any("exc" in e for e in ev[:di]) or "exc" in ev[di]:
+        ctx.fail_harness("sanitizer stage: set-up failed for %s %s" % (schema, kind))
+        return
+    done = ev[di]["ret"]
+    if not done or str(done[0]).startswith("refused"):
+        ctx.bump_in("sanitizer_stage_not_applicable", kind)
+        return
+    if not held and "exc" in ev[di + 1]:
+        ctx.bump_in("mutations_make_library_unloadable", "san:" + kind)
+        return
+    ctx.count()
+    ctx.nontriv("san|%s|%s|%s|%s" % (schema, rel, kind, done[0]))
+    ctx.bump_in("deviations_verified_under_the_sanitizers", kind)
+    e = ev[-1]
+    if "exc" not in e:
+        ctx.violation(f"deviation-not-reported {fam} san:{kind} {rel.split('/')[-1]}",
+                      f"{schema}: verify() accepts a library after another connection ran {done} on {rel}", wit)
+    elif "database_inconsistency" not in e["exc"].get("is", []):
+        ctx.violation(f"deviation-wrong-exception san:{kind} {e['exc']['type']}",
+                      f"{schema}: verify() reports {done} with {e['exc']['type']} instead of database_inconsistency", wit)
+
+
 def replay(ctx, doc):
     r = doc["replay"]
+    if r.get("san"):
+        res = runner.run_one({"id": "replay", "schema": r["schema"], "ops": r["ops"], "no_disk": True, "no_tz": True}, cfg="san", stall_timeout=120)
+        judge_san(ctx, res, r["schema"], r["file"], r["kind"], r.get("held", False))
+        return
     if r.get("live"):
         run(ctx)
         return
